@@ -284,3 +284,122 @@ example :
      | _ => false) = true := by decide +kernel
 
 end Ln
+
+namespace Ln
+
+/-! ### whole-object round trip for canonical instances
+
+`Aligned rt shapes m`: the object `m` lists, in the order of the struct's fields, one member per field that is
+present — under the field's wire key, with a non-null value that the field's type reads back unchanged and that
+is not an omitted empty array — and nothing for fields that are absent, which must be fields carrying
+`#[serde(default, skip_serializing_if = ..)]` whose default meets the skip predicate. -/
+
+/-- the default of an absent field is not printed -/
+def AbsentOk (sh : FieldShape) : Prop :=
+  ∃ p, skipPred sh.attrs = some p ∧
+    (if p == cs!"Option::is_none" then sh.optionWrapped else skipped p (defaultJson sh.optionWrapped sh.ty)) = true
+
+inductive Aligned (rt : Ty → Json → Except SerdeErr Json) : List FieldShape → Members → Prop where
+  | nil : Aligned rt [] .nil
+  | present (sh : FieldShape) (rest : List FieldShape) (v : Json) (m : Members) :
+      Aligned rt rest m → withPath sh.attrs = none → rt sh.ty v = .ok v → v ≠ .null →
+      (∀ p, skipPred sh.attrs = some p → p ≠ cs!"Option::is_none" → skipped p v = false) →
+      Aligned rt (sh :: rest) (.cons (wireKey sh.ident sh.attrs) v m)
+  | absent (sh : FieldShape) (rest : List FieldShape) (m : Members) :
+      Aligned rt rest m → AbsentOk sh → m.get (wireKey sh.ident sh.attrs) = none →
+      Aligned rt (sh :: rest) m
+
+theorem rtFieldWith_absent (rt : Ty → Json → Except SerdeErr Json) (sh : FieldShape) (M : Members)
+    (hfl : hasFlatten sh.attrs = false) (ha : AbsentOk sh) (hget : M.get (wireKey sh.ident sh.attrs) = none) :
+    rtFieldWith rt sh M = .ok .nil := by
+  obtain ⟨p, hp, hskip⟩ := ha
+  unfold rtFieldWith
+  simp only [hfl, Bool.false_eq_true, if_false, hget, hp]
+  by_cases hpe : (p == cs!"Option::is_none") = true
+  · simp only [hpe, if_true] at hskip ⊢
+    simp [hskip]
+  · simp only [hpe, Bool.false_eq_true, if_false] at hskip ⊢
+    simp [hskip]
+
+theorem Members.get_cons_ne (k k' : Text) (v : Json) (m : Members) (h : k' ≠ k) : (Members.cons k v m).get k' = m.get k' := by
+  simp only [Members.get]
+  have : (k' == k) = false := by simpa using h
+  simp [this]
+
+/-- **a struct without flattened members reads a canonical instance and prints it back unchanged** -/
+theorem rtFieldsWith_aligned (rt : Ty → Json → Except SerdeErr Json) (shapes : List FieldShape) (m M rest : Members)
+    (hal : Aligned rt shapes m)
+    (hsee : ∀ sh ∈ shapes, M.get (wireKey sh.ident sh.attrs) = m.get (wireKey sh.ident sh.attrs))
+    (hnd : (shapes.map fun sh => wireKey sh.ident sh.attrs).Nodup)
+    (hfl : ∀ sh ∈ shapes, hasFlatten sh.attrs = false) :
+    rtFieldsWith rt M rest shapes = .ok m := by
+  induction hal with
+  | nil => rfl
+  | present sh rs v m' hrest hw hrt hnn hsk ih =>
+    simp only [List.map_cons, List.nodup_cons] at hnd
+    have hflsh := hfl sh (List.mem_cons_self ..)
+    have hget : M.get (wireKey sh.ident sh.attrs) = some v := by
+      rw [hsee sh (List.mem_cons_self ..)]; simp [Members.get]
+    have h1 := C04_field_roundtrip rt sh M v hflsh hw hget hrt hnn hsk
+    have h2 := ih (fun sh' hs' => by
+        rw [hsee sh' (List.mem_cons_of_mem _ hs')]
+        apply Members.get_cons_ne
+        intro he
+        exact hnd.1 (List.mem_map.mpr ⟨sh', hs', he⟩)) hnd.2 (fun sh' hs' => hfl sh' (List.mem_cons_of_mem _ hs'))
+    simp only [rtFieldsWith, hflsh, Bool.false_eq_true, if_false, h1, h2]
+    rfl
+  | absent sh rs m' hrest ha hnone ih =>
+    simp only [List.map_cons, List.nodup_cons] at hnd
+    have hflsh := hfl sh (List.mem_cons_self ..)
+    have hget : M.get (wireKey sh.ident sh.attrs) = none := by rw [hsee sh (List.mem_cons_self ..)]; exact hnone
+    have h1 := rtFieldWith_absent rt sh M hflsh ha hget
+    have h2 := ih (fun sh' hs' => hsee sh' (List.mem_cons_of_mem _ hs')) hnd.2 (fun sh' hs' => hfl sh' (List.mem_cons_of_mem _ hs'))
+    simp only [rtFieldsWith, hflsh, Bool.false_eq_true, if_false, h1, h2]
+    rfl
+
+/-- … stated for the generated type of a struct record: `from_value` then `to_value` is the identity on it -/
+theorem C04_struct_roundtrip (schemas : SchemaTable) (fuel : Nat) (n sn : Text) (nl : Bool) (fields : List (Text × HirField)) (doc : Option Text)
+    (shapes : List FieldShape) (m : Members)
+    (hrec : btGet n schemas = some (.struct sn nl fields doc)) (hsh : shapesOf fields = .ok shapes)
+    (hal : Aligned (rtTy schemas fuel) shapes m)
+    (hnd : (shapes.map fun sh => wireKey sh.ident sh.attrs).Nodup)
+    (hfl : ∀ sh ∈ shapes, hasFlatten sh.attrs = false) :
+    rtTy schemas (fuel + 1) (.model n) (.obj m) = .ok (.obj m) := by
+  simp only [rtTy, hrec, hsh]
+  rw [rtFieldsWith_aligned (rtTy schemas fuel) shapes m m _ hal (fun _ _ => rfl) hnd hfl]
+
+/-- optional fields, required lists and untyped members may be absent: their shape meets `AbsentOk` -/
+theorem fieldShape_absentOk (name : Text) (f : HirField) (sh : FieldShape) (h : fieldShape name f = .ok sh)
+    (hopt : f.optional = true ∨ f.ty.isIterable = true ∨ f.ty = .any) : AbsentOk sh := by
+  unfold fieldShape at h
+  split at h
+  · rename_i ident _
+    simp at h
+    subst h
+    unfold AbsentOk fieldAttributes skipPred
+    simp only
+    by_cases ho : f.optional = true
+    · refine ⟨cs!"Option::is_none", ?_, by simp [ho]⟩
+      by_cases hne : (ident != name) = true <;> by_cases hf : f.flatten = true <;> simp [hne, hf, skipAttrs, ho]
+    · have ho' : f.optional = false := by simpa using ho
+      rcases hopt with h1 | h2 | h3
+      · exact absurd h1 ho
+      · refine ⟨cs!"Vec::is_empty", ?_, ?_⟩
+        · by_cases hne : (ident != name) = true <;> by_cases hf : f.flatten = true <;> simp [hne, hf, skipAttrs, ho', h2]
+        · cases hty : f.ty <;> simp [hty, Ty.isIterable] at h2
+          simp [ho', forcedOptional, defaultJson, skipped]
+      · refine ⟨cs!"serde_json::Value::is_null", ?_, ?_⟩
+        · by_cases hne : (ident != name) = true <;> by_cases hf : f.flatten = true <;> simp [hne, hf, skipAttrs, ho', h3, Ty.isIterable]
+        · simp [ho', h3, forcedOptional, defaultJson, skipped]
+  · simp at h
+
+/-- non-vacuity: `Pet { id, pet-name, tag? }` with `tag` absent is a canonical instance and comes back unchanged -/
+example :
+    let schemas : SchemaTable := [(cs!"Pet", .struct cs!"Pet" false
+      [(cs!"id", ⟨.integer .simple, false, none, false⟩), (cs!"pet-name", ⟨.string, false, none, false⟩), (cs!"tag", ⟨.string, true, none, false⟩)] none)]
+    let inst : Json := .obj (.cons cs!"id" (.int 7) (.cons cs!"pet-name" (.str cs!"Rex") .nil))
+    (match rtTy schemas 8 (.model cs!"Pet") inst with
+     | .ok (.obj (.cons k1 (.int 7) (.cons k2 (.str _) .nil))) => k1 == cs!"id" && k2 == cs!"pet-name"
+     | _ => false) = true := by decide +kernel
+
+end Ln
